@@ -27,9 +27,19 @@ Definition print_xbyterange (r : ByteRange) : str := pfx_ExtXByteRange ++ print_
 (* ---------- EXT-X-KEY ---------- *)
 Definition xkey := option Key.                       (* ExtXKey(None) = METHOD=NONE *)
 Definition s_METHOD_NONE := Eval vm_compute in lit "METHOD=NONE".
+(* METHOD=NONE stands alone: some METHOD attribute says NONE and no other METHOD / URI / IV / KEYFORMAT /
+   KEYFORMATVERSIONS attribute is present (white space and unrecognised attributes do not matter) *)
+Definition none_scan (st : bool * bool) (kv : str * str) : bool * bool :=
+  let '(k, v) := kv in
+  if str_eqb k s_METHOD && str_eqb v s_NONE then (true, snd st)
+  else if str_eqb k s_METHOD || str_eqb k s_URI || str_eqb k s_IV || str_eqb k s_KEYFORMAT || str_eqb k s_KEYFORMATVERSIONS
+       then (fst st, false)
+  else st.
+Definition is_method_none (ps : list (str * str)) : bool :=
+  let st := fold_left none_scan ps (false, true) in fst st && snd st.
 Definition parse_xkey (line : str) : res xkey :=
   let! rest := tag line pfx_ExtXKey in
-  if str_eqb (trim rest) s_METHOD_NONE then Ok None
+  if is_method_none (attr_pairs rest) then Ok None
   else rmap Some (parse_decryption_key rest).
 Definition print_xkey (k : xkey) : str :=
   pfx_ExtXKey ++ match k with Some d => print_decryption_key d | None => s_METHOD_NONE end.
